@@ -23,7 +23,7 @@ def prepare(tier):
 
 def jobs(ctx, tier, seed):
     n = 16
-    per = 12000 if tier == "thorough" else 1500
+    per = 12000 if tier == "thorough" else 700
     out = []
     for i in range(n):
         ff = os.path.join(ctx["wd"], "fail%d.json" % i)
